@@ -29,6 +29,15 @@ Loops over data are evaluated once on a generic element `('elem', x)` whatever t
 (lockstep: f is g(e)); `int(e)` of an index is the index.  `match` statements with literal / singleton / alternative / wildcard patterns are the
 if / elif chain of their tests.  With `loadevents=True` every subscript load is recorded as an event so that a rule can tell which stores into
 an object a load has seen.
+
+Effects through views (pass 4).  A value obtained by basic indexing is a view: `.fill(v)`, `out=` (keyword, `out=(x,)` or third positional
+argument) of any numpy call, np.copyto / np.putmask (also `where=`), `__setitem__`, and an in-place operator on a name or member bound to a view
+or to an array the path created (`rows = x[:n]; rows *= f`, `obj.d += y`) are store events on what the view was taken from (advanced indexing
+yields a temporary: the store goes there).  `written_args` / `unfollowed_writes` tell a rule which calls that were *not* followed may have
+written into a value, so that the absence of a store is never read as "unchanged".  Also followed: generator functions whose yields do not sit
+in a data loop (the table of what they yield), namedtuple / NamedTuple / dataclass records, `try: d[key] ... except KeyError` as the test
+`key in d`, a certain KeyError on a dict the path created (event 'keyerror', the path raises), `x in (c1, c2, ...)` as a chain of equality
+tests, zip of a literal table with an opaque sequence, `a.dot(b)` / np.dot as the matrix product, len / get on dicts with known content.
 """
 from __future__ import annotations
 
@@ -45,7 +54,7 @@ CMPOPS = {ast.Eq: "eq", ast.NotEq: "ne", ast.Lt: "lt", ast.LtE: "le", ast.Gt: "g
           ast.In: "in", ast.NotIn: "notin"}
 # ufunc / function spellings of operators
 UFUNC2 = {"np.logical_or": "or_", "np.logical_and": "and_", "np.bitwise_or": "or_", "np.bitwise_and": "and_", "np.add": "add",
-          "np.subtract": "sub", "np.multiply": "mul", "np.divide": "div", "np.true_divide": "div", "np.matmul": "matmul",
+          "np.subtract": "sub", "np.multiply": "mul", "np.divide": "div", "np.true_divide": "div", "np.matmul": "matmul", "np.dot": "matmul",
           "np.greater": "gt", "np.less": "lt", "np.greater_equal": "ge", "np.less_equal": "le", "np.equal": "eq", "np.not_equal": "ne",
           "np.bitwise_xor": "xor", "np.logical_xor": "xor", "np.floor_divide": "floordiv", "np.power": "pow",
           "operator.add": "add", "operator.mul": "mul", "operator.sub": "sub", "operator.truediv": "div", "operator.matmul": "matmul",
@@ -74,6 +83,7 @@ SIGS = {"np.nanargmax": ["a", "axis"], "np.nanargmin": ["a", "axis"], "np.nanmax
 DEFAULT_KW = {("la.lu_factor", "overwrite_a"): False, ("la.lu_solve", "overwrite_b"): False, ("la.lu_solve", "trans"): 0}
 VIEW_CALLS = {"np.asarray", "np.atleast_1d", "np.atleast_2d", "np.ravel", ".ravel", ".reshape", ".squeeze", ".view", "np.squeeze",
               "np.asanyarray", "np.transpose", ".transpose", "index2slice", "np.ascontiguousarray", "np.asfortranarray"}
+ALWAYS_VIEW = {"np.asarray", "np.asanyarray", "np.transpose", ".transpose", ".squeeze", "np.squeeze", ".view", "np.atleast_1d", "np.atleast_2d"}
 MAXPATHS = 6000
 _BUILTIN_NAMES = frozenset(n for n in dir(__import__("builtins")) if not n.startswith("_") and n not in ("None", "NotImplemented", "Ellipsis"))
 
@@ -211,6 +221,7 @@ class Path:
     def _alloc(self, kind, origin):
         self.noid += 1
         o = Obj(kind, origin, self.noid)
+        o.seq = self.seq            # when it was created (what it copies is read then)
         self.heap[self.noid] = o
         return ("ref", self.noid)
 
@@ -480,6 +491,8 @@ class Path:
             return ("tup",) + tuple(self.eval(e, fr) for e in n.elts)
         if isinstance(n, ast.List):
             return ("lst",) + tuple(self.eval(e, fr) for e in n.elts)
+        if isinstance(n, ast.Set) and all(isinstance(e, ast.Constant) for e in n.elts):
+            return ("tup",) + tuple(dict.fromkeys(self.eval(e, fr) for e in n.elts))       # a set of literals: used for membership tests and loops
         if isinstance(n, ast.Slice):
             return ("slice",) + tuple(NONE if p is None else self.eval(p, fr) for p in (n.lower, n.upper, n.step))
         if isinstance(n, ast.Subscript):
@@ -716,6 +729,7 @@ class Path:
             if st.kind == "arr" and i in st.content:
                 return ("ld", b, i, st.content[i])
             if st.kind == "dict" and st.closed and is_const(i) and self.obj(b) is not None and all(is_const(x) for x in st.items):
+                self._ev("keyerror", target=b, index=i, node=self.curnode)
                 raise _KeyError()
         if i[0] == "slice" and self.is_list(b):
             return self._alloc("list", ("idx", b, i))
@@ -1013,10 +1027,19 @@ class Path:
         if meth == "__setitem__" and len(args) == 2 and not kws:
             self._store(recv, args[0], args[1], n)
             return NONE
+        if meth == "dot" and len(args) == 1 and not kws:
+            return self._binop("matmul", recv, args[0])          # a.dot(b): the matrix product (one value with a @ b)
         if meth == "nonzero" and not args:
             return self._opaque(".nonzero", [recv], [], n)
         if meth in ("ravel", "flatten", "squeeze") and not args and not kws and recv[0] == "call" and recv[1] == "np.argwhere" and len(recv[2]) == 1 and not recv[3]:
             return self._load(self._opaque(".nonzero", list(recv[2]), [], n), ("c", 0))         # np.argwhere(mask).ravel(): positions of a 1-D mask
+        if meth == "get" and 1 <= len(args) <= 2 and not kws and is_const(args[0]):
+            st = self._st(recv)
+            if st is not None and st.kind == "dict" and self.obj(recv) is not None:
+                if args[0] in st.items:
+                    return st.items[args[0]]
+                if st.closed and all(is_const(x) for x in st.items):
+                    return args[1] if len(args) == 2 else NONE
         if meth in ("items", "keys", "values") and not args:
             st = self._st(recv)
             if st is not None and st.kind == "dict" and st.closed:
@@ -1231,6 +1254,8 @@ class Path:
             return args[0]              # an index taken from an index vector, made a Python int
         if name == "len" and len(args) == 1 and args[0][0] in ("tup", "lst"):
             return ("c", len(args[0]) - 1)
+        if name == "len" and len(args) == 1 and self.obj(args[0]) is not None and self.obj(args[0]).kind == "dict" and self.obj(args[0]).closed:
+            return ("c", len(self.obj(args[0]).items))
         if name == "isinstance":
             return ("call", "isinstance", tuple(args), ())
         if name in ("print",):
@@ -1416,8 +1441,14 @@ class Path:
                 b = self.eval(t.value, fr)
                 cur = self._getattr(b, t.attr)
                 v = self.eval(s.value, fr)
-                self._ev("inplace", target=cur, value=self._binop(name, cur, v), node=s)
-                self._setattr(b, t.attr, self._binop(name, cur, v), s, aug=True)
+                o = self.obj(cur)
+                if o is not None and o.kind == "arr":
+                    # the member is an array the path created: the operator works in place on that object (whoever else holds it sees the
+                    # change) and the member stays bound to it
+                    self._store_into(cur, self._binop(name, cur, v), s, aug=True)
+                else:
+                    self._ev("inplace", target=cur, value=self._binop(name, cur, v), node=s)
+                    self._setattr(b, t.attr, self._binop(name, cur, v), s, aug=True)
             else:
                 cur = self.eval(t, fr)
                 v = self.eval(s.value, fr)
@@ -1828,6 +1859,8 @@ def mem(P, t, kinds=None):
     if k == "call":
         if t[1] in VIEW_CALLS and t[2]:
             r, c = mem(P, t[2][0], kinds)
+            if r and c and t[1] in ALWAYS_VIEW and all(x[0] == "ref" and P.heap[x[1]].kind == "arr" for x in r):
+                return r, True          # of an ndarray the path created itself these never copy
             return r, False if r else True
         return set(), True
     if k == "elem":
